@@ -344,4 +344,14 @@ theorem vs_hset_append (n v n' : Bytes) {m : HeaderMap} (hs : Sorted m) :
       simp only [vs, h2 n' hk']
       exact List.Perm.refl _
 
+/-! ### case folding -/
+
+theorem lower8_idem (c : UInt8) : lower8 (lower8 c) = lower8 c := by
+  have h : ∀ n, n < 256 → lower8 (lower8 (UInt8.ofNat n)) = lower8 (UInt8.ofNat n) := by decide +kernel
+  have := h c.toNat c.toNat_lt
+  simpa using this
+
+theorem lower_idem (x : Bytes) : lower (lower x) = lower x := by
+  simp [lower, lower8_idem]
+
 end Qhttp.C03L
